@@ -10,7 +10,7 @@
   A connection is split into its session-critical `Core` (connection id, protocol class, packet
   counter, session key, number of writes) and the rest (transport state, receive buffer/queue, key
   expiry); only six operations touch the core or the log: the three writes, accepting a handshake
-  reply, connecting and disconnecting.
+  reply, forgetting the session key, connecting and disconnecting.
 -/
 import Msmart.Model.PacketV3
 import Msmart.Model.Reassembly
@@ -47,6 +47,7 @@ inductive Ev where
   | wrData (cid ctr : Nat) (key : Bytes) (frame : Bytes)
   | wrV2 (cid : Nat) (frame : Bytes)
   | accept (cid : Nat) (key : Bytes)
+  | forget (cid : Nat)                 -- a new handshake is started: the previous session key is dropped
   | closed (cid : Nat)
   deriving DecidableEq, Repr
 
@@ -234,6 +235,15 @@ def opAccept (s : S) (lk : Bytes) (expiry : Nat) : S :=
     logEv { s with l := { s.l with conn := some { c with core := { c.core with localKey := some lk }, keyExpiry := some expiry } } }
       (.accept c.core.cid lk)
 
+/-- the start of a handshake drops the previous session key and its expiry (since `fix:` "forget the
+    session key when a new handshake is started"; before it a failed re-handshake left the old key in use) -/
+def opForget (s : S) : S :=
+  match s.l.conn with
+  | none => s
+  | some c =>
+    logEv { s with l := { s.l with conn := some { c with core := { c.core with localKey := none }, keyExpiry := none } } }
+      (.forget c.core.cid)
+
 /-- `_disconnect()` -/
 def opDisconnect (s : S) : S :=
   match s.l.conn with
@@ -303,9 +313,9 @@ def protoAuthenticate (p : Params) (rx : Reactions) (s : S) (token key : Option 
   match token, key with
   | some tk, some ky =>
     if tk.isEmpty ∨ ky.isEmpty then (.error .auth, s) else
-    match opWriteHS rx (flush s) tk with
-    | .error .protocol => (.error .auth, flush s)
-    | .error e => (.error e, flush s)
+    match opWriteHS rx (opForget (flush s)) tk with
+    | .error .protocol => (.error .auth, opForget (flush s))
+    | .error e => (.error e, opForget (flush s))
     | .ok s1 =>
       match awaitQueue (s1.w.pending.length + 1) s1 (s1.w.now + p.readTimeout) with
       | (.timeout, s2) => (.error .timeout, s2)
